@@ -22,7 +22,7 @@ from vf.props import c01
 MODULES = ["Model.Expr", "Model.Gen", "Model.Pretty", "Generated.C07", "Proofs.Pretty", "Properties.C07"]
 P = "SqlglotModel.Properties.C07."
 THEOREMS = [P + n for n in ["indent_ws_only", "sep_seg_ws_only", "wrap_ws_only", "expressions_ws_only", "expressions_empty_item_witness",
-                            "generated_sentinel_chain_ok", "sentinel_absent_in_output", "sentinel_absent_in_output_old", "sentinel_lowercased_survives", "doc_render_ws_only", "sentinel_roundtrip",
+                            "generated_sentinel_chain_ok", "generated_surgery_sites_audited", "embed_before_paren_comment_independent", "embed_rfind_counterexample", "sentinel_absent_in_output", "sentinel_absent_in_output_old", "sentinel_lowercased_survives", "doc_render_ws_only", "sentinel_roundtrip",
                             "sentinel_in_literal_changes_value", "sentinel_overlap_changes_value", "sanitize_comment_examples"]]
 SENT = "__SQLGLOT__LB__"
 
@@ -69,9 +69,77 @@ def sentinel_chain(chk: Check) -> list:
     return chain
 
 
+SURGERY_OPS = {"rfind", "rindex", "find", "index", "split", "rsplit", "partition", "rpartition", "replace", "removesuffix", "removeprefix",
+               "lstrip", "rstrip", "strip"}
+RENDER_CALLS = {"sql", "func", "expressions", "function_fallback_sql", "binary", "format_args", "wrap", "indent", "seg", "sep"}
+
+
+def surgery_sites(chk: Check) -> list:
+    """generator methods that post-process RENDERED text (result of self.sql / self.func / … or a variable assigned from one)
+    with position-dependent string operations: (file, method, operation), by ast. Comment text is part of rendered text
+    unless the method renders with comment=False — such sites are marked `<operation>/nocomment` (comment-independent by
+    construction); every other site is a place where a comment can steer the surgery."""
+    import ast
+    import glob
+    import os
+    from vf.core import REPO
+
+    def render_calls(node):
+        res = []
+        for n in ast.walk(node):
+            if isinstance(n, ast.Call) and isinstance(n.func, ast.Attribute):
+                if (n.func.attr in RENDER_CALLS and isinstance(n.func.value, ast.Name) and n.func.value.id == "self") or n.func.attr.endswith("_sql"):
+                    res.append(n)
+        return res
+
+    def renders(node):
+        return bool(render_calls(node))
+
+    def without_comments(node):
+        """every rendering call inside `node` passes comment=False (the rendered text carries no comment text)"""
+        calls = render_calls(node)
+        return bool(calls) and all(any(k.arg == "comment" and isinstance(k.value, ast.Constant) and k.value.value is False for k in c.keywords)
+                                   for c in calls)
+
+    files = sorted(glob.glob(os.path.join(REPO, "sqlglot", "generators", "*.py"))) + [os.path.join(REPO, "sqlglot", "generator.py"),
+                                                                                     os.path.join(REPO, "sqlglot", "dialects", "dialect.py")]
+    out = set()
+    for f in files:
+        try:
+            tree = ast.parse(open(f, encoding="utf-8").read())
+        except Exception:  # noqa
+            continue
+        for fn in ast.walk(tree):
+            if not isinstance(fn, ast.FunctionDef):
+                continue
+            rnames: dict = {}
+            for n in ast.walk(fn):
+                if isinstance(n, ast.Assign) and renders(n.value):
+                    for t in n.targets:
+                        if isinstance(t, ast.Name):
+                            rnames[t.id] = rnames.get(t.id, True) and without_comments(n.value)
+
+            def rendered(x):
+                return renders(x) or (isinstance(x, ast.Name) and x.id in rnames)
+
+            def suffix(x):
+                nc = without_comments(x) if renders(x) else rnames.get(getattr(x, "id", None), False)
+                return "/nocomment" if nc else ""
+
+            rel = os.path.relpath(f, REPO)
+            for n in ast.walk(fn):
+                if isinstance(n, ast.Call) and isinstance(n.func, ast.Attribute) and n.func.attr in SURGERY_OPS and rendered(n.func.value):
+                    out.add((rel, fn.name, n.func.attr + suffix(n.func.value)))
+                if isinstance(n, ast.Subscript) and isinstance(n.slice, ast.Slice) and rendered(n.value):
+                    out.add((rel, fn.name, "slice" + suffix(n.value)))
+    return sorted(out)
+
+
 def translate(chk: Check) -> str:
     chain = sentinel_chain(chk)
     chk.cov["sentinel_replace_chain"] = chain
+    sites = surgery_sites(chk)
+    chk.cov["string_surgery_sites"] = len(sites)
 
     def chars(t):
         return "[" + ", ".join("Char.ofNat %d" % ord(c) for c in t) + "]"
@@ -79,6 +147,9 @@ def translate(chk: Check) -> str:
     return ("-- GENERATED by vf/props/c07.py from sqlglot/generator.py (Generator.generate, the replace chain under `if self.pretty`). Do not edit.\n"
             "namespace SqlglotModel.Generated.C07\n"
             "def sentinelChain : List (List Char) := [" + ", ".join(chars(t) for t in chain) + "]\n"
+            "/-- generator methods doing position-dependent string surgery on rendered text: (file, method, operation) -/\n"
+            "def surgerySites : List (String × String × String) := [" + ", ".join(
+                "(" + ", ".join(json.dumps(x) for x in t) + ")" for t in sites) + "]\n"
             "end SqlglotModel.Generated.C07\n")
 
 
@@ -398,6 +469,26 @@ def opt_key(opts):
     return "+".join(keys) or "default"
 
 
+COMMENT_TEXTS = ["non-null values (sorted)", "a) b", "x, y (", "it's", "IGNORE NULLS", 'say "hi"', "/ * nested * /", "FROM t AS u", "--", "a;b", "[0]", "END"]
+COMMENT_TEMPLATES = [
+    "SELECT ARRAY_AGG(x IGNORE NULLS) /* {c} */ AS xs FROM t",
+    "SELECT ARRAY_AGG(x RESPECT NULLS) /* {c} */ FROM t",
+    "SELECT FIRST_VALUE(x IGNORE NULLS) /* {c} */ OVER (ORDER BY y) FROM t",
+    "SELECT FIRST_VALUE(x) /* {c} */ IGNORE NULLS OVER (ORDER BY y) AS f FROM t",
+    "SELECT LAST_VALUE(x /* {c} */ IGNORE NULLS) OVER (PARTITION BY z ORDER BY y) /* {c} */ AS l FROM t",
+    "SELECT NTH_VALUE(x, 2) /* {c} */ IGNORE NULLS OVER w FROM t WINDOW w AS (ORDER BY y) /* {c} */",
+    "SELECT ARRAY_AGG(x ORDER BY y /* {c} */ LIMIT 2) /* {c} */, STRING_AGG(x, ',' /* {c} */) /* {c} */ FROM t",
+    "SELECT PERCENTILE_CONT(0.5) /* {c} */ WITHIN GROUP (ORDER BY x /* {c} */) /* {c} */ FROM t",
+    "SELECT F(a /* {c} */, b) /* {c} */ FROM t /* {c} */ WHERE a = 1 /* {c} */",
+    "SELECT CAST(a AS INT) /* {c} */, CASE WHEN a THEN 1 END /* {c} */, (SELECT 1) /* {c} */ FROM t",
+    "SELECT a /* {c} */ AS b, 'x' /* {c} */, 1 /* {c} */, ~a /* {c} */, -a /* {c} */ FROM (SELECT 1) /* {c} */ AS s",
+    "SELECT COUNT(DISTINCT a /* {c} */) /* {c} */, SUM(a) /* {c} */ OVER (PARTITION BY b) /* {c} */ FROM t",
+    "SELECT a FROM t /* {c} */ JOIN u /* {c} */ ON t.a = u.a /* {c} */ GROUP BY a /* {c} */ ORDER BY a /* {c} */ LIMIT 1 /* {c} */",
+    "SELECT a IN (1 /* {c} */, 2) /* {c} */, a BETWEEN 1 AND 2 /* {c} */ FROM t",
+    "CREATE TABLE t /* {c} */ (a INT /* {c} */, b TEXT) /* {c} */",
+    "INSERT INTO t /* {c} */ VALUES (1 /* {c} */) /* {c} */",
+    "ALTER TABLE t /* {c} */ ADD COLUMN c INT /* {c} */",
+]
 OPT_SWEEP = [
     {"pretty": True, "pad": 2, "indent": 2, "max_text_width": 20}, {"pretty": True, "pad": 0, "indent": 4, "max_text_width": 1, "leading_comma": True},
     {"comments": False}, {"identify": True}, {"identify": "safe"}, {"normalize_functions": "lower"}, {"normalize_functions": False},
@@ -486,6 +577,21 @@ def search(chk: Check, budget_s: float) -> None:
                             o["identify"] = True
                         if o:
                             consider(src, d, o)
+    # comment texts containing every structural character a generator method might search for, attached to node kinds whose
+    # methods post-process rendered text; oracle: output with comments == output without comments, modulo comments
+    t1 = time.time()
+    ctexts = COMMENT_TEXTS if not chk.quick else COMMENT_TEXTS[:5]
+    csets = [{"comments": False}, {"comments": False, "pretty": True, "max_text_width": 20}]
+    if not chk.quick:
+        csets += [{"comments": False, "identify": True}, {"comments": False, "pretty": True, "leading_comma": True, "pad": 0, "indent": 0}]
+    for tpl in COMMENT_TEMPLATES:
+        for c in ctexts:
+            src = tpl.replace("{c}", c)
+            for d in dialects:
+                for o in csets:
+                    consider(src, d, dict(o))
+    chk.cov["comment_structure_sweep"] = {"templates": len(COMMENT_TEMPLATES), "comment_texts": len(ctexts), "option_sets": len(csets),
+                                          "wall_s": round(time.time() - t1, 1)}
     # the DDL / DML subset: every template x every dialect x the option sweep, read in the target dialect and in the base dialect
     t1 = time.time()
     for s in DDL_TEMPLATES:
@@ -576,7 +682,7 @@ def run(chk: Check) -> None:
         if proved:
             raise
         chk.note(f"model driver unavailable ({e}); continuing with the search on the real code")
-    budget = chk.pick(20, 300)
+    budget = chk.pick(14, 300)
     if chk.broken:
         budget *= 2
     search(chk, budget)
